@@ -151,7 +151,7 @@ def quad_psi(model, epsrel=1e-10):
     radii above the small-radius limit, R = rho below."""
     from scipy.integrate import quad
     w = float(model.w)
-    srm = float(model.srm)
+    srm = 1e-4 * float(model.wavelen)          # the small-radius limit from the CURRENT wavelength, not from the model's cached value
 
     def psi(obs, a, b, k, r, seg_len, frac, fvs):
         ra, rb = a - obs, b - obs
